@@ -177,6 +177,19 @@ H("num_hex_spec_n3", NUM, ["C08", "C16"], bound="<= 3 ASCII bytes, all case flip
 H("num_hex_spec_n4", NUM, ["C08", "C16"], tier="thorough", bound="<= 4 ASCII bytes", funcs=["try_parse_hex_integer"], timeout=3600, mem=16)
 
 
+# C19: the same functional contracts in the release-like configuration (debug assertions compiled out):
+# a side effect hidden inside a debug assertion, or a debug-only branch, shows as a failed contract there.
+for _n in ("lx_token_expect_symbol", "lx_token_expect_semi", "lx_token_ws_only", "lx_token_macro_def_name", "lx_numeric_literal",
+           "lx_macro_comment_k4", "lx_default_star", "lx_default_symbol", "lx_maybe_args_or_label", "lx_new_bom", "lx_single_quoted_k3"):
+    _h = by_name(_n) if "by_name" in globals() else None
+    for _x in HARNESSES:
+        if _x["name"] == _n:
+            if "nodebug" not in _x["cfgs"]:
+                _x["cfgs"].append("nodebug")
+            if "C19" not in _x["props"]:
+                _x["props"].append("C19")
+
+
 def by_property(pid, tier):
     out = []
     for h in HARNESSES:
